@@ -1,7 +1,10 @@
 package c13
 
 import (
+	"context"
+	"errors"
 	"fmt"
+	"sync/atomic"
 	"time"
 
 	"github.com/plgd-dev/go-coap/v3/message/pool"
@@ -131,3 +134,74 @@ func keepAliveLeftovers(rec *vr.Rec, reps int) {
 }
 
 var _ = vr.Seed
+
+// unsendablePings: a ping the peer never answers is given up after MAX_RETRANSMIT retransmissions - also when those
+// retransmissions cannot be written (the transport refuses writes while the connection stays open). Its message-ID
+// continuation and its copy of the ping must be gone after housekeeping has run often enough, whatever the writes did.
+func unsendablePings(rec *vr.Rec, reps int) {
+	for rep := 0; rep < reps; rep++ {
+		failFrom := rep % 3 // the first write succeeds; retransmission number failFrom and all later ones are refused
+		c := map[string]any{"scenario": "unanswered ping whose retransmissions are refused by the transport", "writes_refused_from_retransmission": failFrom, "direct_async_ping": rep%2 == 0}
+		s := sim.NewMemSession()
+		var writes atomic.Int32
+		s.OnWrite = func([]byte) error {
+			if int(writes.Add(1)) > 1+failFrom {
+				return errors.New("injected: transport refuses the write")
+			}
+			return nil
+		}
+		cc := sim.NewUDPConn(s, sim.UDPOpts{Mutate: func(cfg *udpclient.Config) {
+			cfg.TransmissionMaxRetransmit = 3
+			cfg.TransmissionAcknowledgeTimeout = 2 * time.Second
+		}})
+		var pingErr atomic.Value
+		done := make(chan struct{})
+		if rep%2 == 0 {
+			_, err := cc.AsyncPing(func() {})
+			if err != nil {
+				rec.Inconclusive("unsendable pings: " + err.Error())
+				_ = cc.Close()
+				continue
+			}
+			close(done)
+		} else {
+			go func() {
+				defer close(done)
+				ctx, cancel := context.WithCancel(context.Background())
+				defer cancel()
+				go func() {
+					// the caller gives up only after housekeeping has had its say
+					time.Sleep(50 * time.Millisecond)
+					cancel()
+				}()
+				if err := cc.Ping(ctx); err != nil {
+					pingErr.Store(err.Error())
+				}
+			}()
+		}
+		base := time.Now()
+		for k := 1; k <= 40; k++ {
+			cc.CheckExpirations(base.Add(time.Duration(k) * time.Hour))
+		}
+		<-done
+		sz := cc.VerifSizes()
+		sim.WaitFor(2*time.Second, func() bool {
+			if sz["mid_handlers"] == 0 {
+				return true
+			}
+			time.Sleep(5 * time.Millisecond)
+			cc.CheckExpirations(time.Now().Add(100 * time.Hour))
+			sz = cc.VerifSizes()
+			return false
+		})
+		rec.Eval(fmt.Sprintf("unsendable-ping|%d|%d", failFrom, rep))
+		rec.Count("unsendable_ping_cases", 1)
+		rec.Count("unsendable_ping_write_attempts", int64(writes.Load()))
+		if sz["mid_handlers"] != 0 {
+			rec.Violation("C13/udp/ping/pending-entry-survives-refused-retransmissions", fmt.Sprintf("40 housekeeping runs far beyond every retransmission time (%d write attempts): %s", writes.Load(), sizesStr(sz)), c)
+		} else if w := int(writes.Load()); w > 1+3+2 {
+			rec.Violation("C13/udp/ping/retried-beyond-max-retransmit", fmt.Sprintf("%d write attempts for one ping with MAX_RETRANSMIT 3", w), c)
+		}
+		_ = cc.Close()
+	}
+}
